@@ -280,7 +280,15 @@ func (s *Sim) register(site string, idx int, client bool) func() {
 	key := site + "#" + strconv.Itoa(idx)
 	s.seq[key]++
 	t := &Task{Name: key + "." + strconv.Itoa(s.seq[key]), Site: site, Client: client, gid: g, wake: make(chan struct{}, 1)}
-	t.prio = s.rng.Intn(1 << 20)
+	// derived from the name, not drawn: siblings started in one step register in any order
+	ph := fnv.New64a()
+	ph.Write([]byte(t.Name))
+	var sb [8]byte
+	for i := 0; i < 8; i++ {
+		sb[i] = byte(uint64(s.cfg.Seed) >> (8 * i))
+	}
+	ph.Write(sb[:])
+	t.prio = int(ph.Sum64() >> 44)
 	s.tasks[g] = t
 	t.parked = true
 	t.at = "start"
